@@ -269,7 +269,8 @@ func (r *Report) writeEvidence(counts map[string]int, violated []Obligation, rep
 		"rules":               rules,
 		"units_analysed":      r.units,
 		"samples":             samples,
-		"obligation_list":     r.obls,
+		"obligation_list":     r.trimmedObligations(),
+		"obligation_list_note": "all violated/excepted/known/info obligations plus the first 400 discharged ones; counts above cover the complete list",
 		"checker_cmd":         "/verif/run.sh " + r.pc.id + " " + r.tier,
 		"trusted_base":        []string{"go/parser, go/types, go/ssa (golang.org/x/tools v0.50.0)", "the snapshot/go generate step reproduces the build's source set", "rule slot tables and exception tables in /verif/checker (each entry with a reason)"},
 		"exhaustive":          r.pc.level == "proof",
@@ -299,4 +300,22 @@ func (r *Report) writeEvidence(counts map[string]int, violated []Obligation, rep
 	} else {
 		_ = os.Remove(replay)
 	}
+}
+
+func (r *Report) trimmedObligations() []Obligation {
+	out := []Obligation{}
+	n := 0
+
+	for _, o := range r.obls {
+		if o.Status == "discharged" {
+			n++
+			if n > 400 {
+				continue
+			}
+		}
+
+		out = append(out, o)
+	}
+
+	return out
 }
